@@ -18,3 +18,5 @@ for pid in "$@"; do
   echo "$pid: $(echo "$out" | grep -c VIOLATION) violation lines"
 done
 git -C /repo worktree remove --force $W
+# the runs above rewrote evidence/ and lean/JediModel/Gen/ from the MUTATED tree: restore the committed (clean-tree) files
+git -C "$(dirname "$0")/.." checkout -- evidence lean/JediModel/Gen 2>/dev/null
